@@ -6,6 +6,7 @@
 -/
 import AITB.Model.POMDP
 import AITB.Props.C01
+import AITB.Gen.C02Sites
 import Mathlib.Algebra.Order.Field.Rat
 import Mathlib.Algebra.BigOperators.Group.Finset.Basic
 import Mathlib.Algebra.Order.BigOperators.Group.Finset
@@ -999,6 +1000,288 @@ theorem rtbss_negative_maxR_counterexample :
   split <;> norm_num
 
 
+
+
+/-! ## RTBSS for either form of the two source sites (flags regenerated from the source by `tools/extract_c02.py`) -/
+
+/-- `rtSampleC ⟨false,false⟩` is the as-shipped model -/
+theorem rtStepC_shipped (m : Model) (τ maxR : Rat) (V : Vec → Rat) (hprev : Nat) (b : Vec) (acc : RtAcc) (a : Nat) :
+    rtStepC ⟨false, false⟩ m τ maxR V hprev b acc a = rtStep m τ maxR V hprev b acc a := by
+  simp [rtStepC, rtStep, rtUpperC]
+
+theorem rtLoopC_shipped (m : Model) (τ maxR : Rat) (V : Vec → Rat) (hprev : Nat) (b : Vec) (n : Nat) :
+    rtLoopC ⟨false, false⟩ m τ maxR V hprev b n = rtLoop m τ maxR V hprev b n := by
+  induction n with
+  | zero => rfl
+  | succ n ih => simp only [rtLoopC, rtLoop, ih, rtStepC_shipped]
+
+theorem rtSimC_shipped (m : Model) (τ maxR : Rat) (h : Nat) : rtSimC ⟨false, false⟩ m τ maxR h = rtSim m τ maxR h := by
+  induction h with
+  | zero => rfl
+  | succ h ih => funext b; simp only [rtSimC, rtSim, ih, rtLoopC_shipped]
+
+theorem rtSampleC_shipped (m : Model) (τ maxR : Rat) (h : Nat) (b : Vec) :
+    rtSampleC ⟨false, false⟩ m τ maxR h b = rtSample m τ maxR h b := by
+  cases h with
+  | zero => rfl
+  | succ h => simp only [rtSampleC, rtSample, rtSimC_shipped, rtLoopC_shipped]
+
+/-- the tightest bound on an h-step return when every reward is ≤ maxR: Σ_{t<h} γ^t·maxR -/
+def rtB (m : Model) (maxR : Rat) : Nat → Rat
+  | 0 => 0
+  | h+1 => maxR + m.γ * rtB m maxR h
+
+theorem rtB_nonneg (m : Model) (hγ0 : 0 ≤ m.γ) (maxR : Rat) (hM : 0 ≤ maxR) : ∀ h, 0 ≤ rtB m maxR h
+  | 0 => le_refl _
+  | h+1 => by simp only [rtB]; have := rtB_nonneg m hγ0 maxR hM h; positivity
+
+theorem rtB_le_linear (m : Model) (hγ0 : 0 ≤ m.γ) (hγ1 : m.γ ≤ 1) (maxR : Rat) (hM : 0 ≤ maxR) :
+    ∀ h : Nat, rtB m maxR h ≤ (h : Rat) * maxR
+  | 0 => by simp [rtB]
+  | h+1 => by
+    simp only [rtB]
+    have ih := rtB_le_linear m hγ0 hγ1 maxR hM h
+    have h0 := rtB_nonneg m hγ0 maxR hM h
+    have : m.γ * rtB m maxR h ≤ 1 * rtB m maxR h := mul_le_mul_of_nonneg_right hγ1 h0
+    push_cast; linarith
+
+theorem rtB_succ' (m : Model) (maxR : Rat) : ∀ h : Nat, rtB m maxR (h+1) = rtB m maxR h + m.γ ^ h * maxR
+  | 0 => by simp [rtB]
+  | h+1 => by
+    have ih := rtB_succ' m maxR h
+    have e : rtB m maxR (h+1+1) = maxR + m.γ * rtB m maxR (h+1) := rfl
+    have e2 : rtB m maxR (h+1) = maxR + m.γ * rtB m maxR h := rfl
+    have key : rtB m maxR h + m.γ ^ h * maxR = maxR + m.γ * rtB m maxR h := by rw [← ih]; exact e2
+    rw [e, ih, pow_succ]
+    have : m.γ * (rtB m maxR h + m.γ ^ h * maxR) = m.γ * rtB m maxR h + m.γ ^ h * m.γ * maxR := by ring
+    rw [this]; linarith
+
+/-- the repaired `upperBound` loop computes γ·rtB h (and d = γ^h) -/
+theorem rtGeoLoop_eq (m : Model) (maxR : Rat) : ∀ h : Nat, rtGeoLoop m.γ maxR h = (m.γ * rtB m maxR h, m.γ ^ h)
+  | 0 => by simp [rtGeoLoop, rtB]
+  | h+1 => by
+    simp only [rtGeoLoop, rtGeoLoop_eq m maxR h]
+    rw [rtB_succ', pow_succ]
+    congr 1; ring
+
+/-- generalisation of `rtFuture_le`: a negative bound is allowed when nothing is skipped (τ = 0) -/
+theorem rtFuture_le' (m : Model) (hv : Valid m) (τ : Rat) (hτ : 0 ≤ τ) (hγ : 0 ≤ m.γ) (V : Vec → Rat) (B : Rat)
+    (hB : 0 ≤ B ∨ τ = 0)
+    (hV : ∀ b', Simplex m.S b' → V b' ≤ B) (b : Vec) (hb : Simplex m.S b) {a : Nat} (ha : a < m.A) :
+    rtFuture m τ V b a ≤ m.γ * B := by
+  have hterm : sumTo m.O (fun o =>
+        if absR (vsum m.S (updU m b a o)) ≤ τ then 0
+        else m.γ * vsum m.S (updU m b a o) * V (vdiv m.S (updU m b a o) (vsum m.S (updU m b a o))))
+      ≤ sumTo m.O (fun o => m.γ * B * vsum m.S (updU m b a o)) := by
+    apply sumTo_le; intro o ho
+    have hu := updU_nonneg m hv b hb.1 ha ho
+    have hp0 := vsum_nonneg _ _ hu
+    split
+    · rename_i hskip
+      rcases hB with hB | hτ0
+      · exact mul_nonneg (mul_nonneg hγ hB) hp0
+      · rw [absR_nonneg_eq _ hp0, hτ0] at hskip
+        have : vsum m.S (updU m b a o) = 0 := le_antisymm hskip hp0
+        rw [this]; simp
+    · rename_i hne
+      have hp : vsum m.S (updU m b a o) ≠ 0 := by
+        intro h0; apply hne; rw [h0]; simpa [absR] using hτ
+      have := hV _ (vdiv_simplex _ _ hu hp)
+      have h2 : 0 ≤ m.γ * vsum m.S (updU m b a o) := mul_nonneg hγ hp0
+      calc m.γ * vsum m.S (updU m b a o) * V _ ≤ m.γ * vsum m.S (updU m b a o) * B := mul_le_mul_of_nonneg_left this h2
+        _ = m.γ * B * vsum m.S (updU m b a o) := by ring
+  have : rtFuture m τ V b a ≤ sumTo m.O (fun o => m.γ * B * vsum m.S (updU m b a o)) := hterm
+  rw [sumTo_mul_left, obs_prob_sum m hv b ha, hb.2, mul_one] at this
+  exact this
+
+/-- the (truncated) expectimax value never exceeds Σ_{t<h} γ^t·maxR — for any sign of maxR when τ = 0 -/
+theorem expectimaxT_le_rtB (m : Model) (hv : Valid m) (τ : Rat) (hτ : 0 ≤ τ) (hγ0 : 0 ≤ m.γ)
+    (maxR : Rat) (hsign : 0 ≤ maxR ∨ τ = 0) (hR : RBound m maxR) :
+    ∀ (h : Nat) (b : Vec), Simplex m.S b → expectimaxT m τ h b ≤ rtB m maxR h := by
+  intro h
+  induction h with
+  | zero => intro b _; simp [expectimaxT, rtB]
+  | succ h ih =>
+    intro b hb
+    simp only [expectimaxT, rtB]
+    obtain ⟨a, ha, e⟩ := maxTo_attained (m.A - 1) (qOfT m τ (expectimaxT m τ h) b)
+    have haA : a < m.A := by have := hv.hA; omega
+    rw [e, qOfT_eq]
+    have hB : 0 ≤ rtB m maxR h ∨ τ = 0 := by
+      rcases hsign with h0 | h0
+      · exact Or.inl (rtB_nonneg m hγ0 maxR h0 h)
+      · exact Or.inr h0
+    have h1 := expReward_le m maxR hR b hb haA
+    have h2 := rtFuture_le' m hv τ hτ hγ0 _ _ hB ih b hb haA
+    linarith
+
+/-- the `for` loop for either placement of the `rew > max` test -/
+theorem rtLoopC_spec (cfg : RtCfg) (m : Model) (τ maxR : Rat) (V : Vec → Rat) (hprev : Nat) (b : Vec)
+    (hU0 : cfg.inside = false → 0 ≤ rtUpperC cfg m maxR hprev) :
+    ∀ n, (∀ a, a ≤ n → rtFuture m τ V b a ≤ rtUpperC cfg m maxR hprev) →
+      rtLoopC cfg m τ maxR V hprev b (n+1) = ⟨some (maxTo n (qOfT m τ V b)), argmaxTo n (qOfT m τ V b)⟩ := by
+  intro n
+  induction n with
+  | zero =>
+    intro _
+    cases hi : cfg.inside <;> simp [rtLoopC, rtStepC, hi, gtOpt, maxTo, argmaxTo, qOfT_eq]
+  | succ n ih =>
+    intro hU
+    have ihn := ih (fun a ha => hU a (by omega))
+    have hfut := hU (n+1) (le_refl _)
+    show rtStepC cfg m τ maxR V hprev b (rtLoopC cfg m τ maxR V hprev b (n+1)) (n+1) = _
+    rw [ihn]
+    have hq : qOfT m τ V b (n+1) = expReward m b (n+1) + rtFuture m τ V b (n+1) := rfl
+    have hmx := AITB.MDP.maxTo_eq_argmax n (qOfT m τ V b)
+    by_cases h1 : maxTo n (qOfT m τ V b) < expReward m b (n+1) + rtUpperC cfg m maxR hprev
+    · by_cases h2 : maxTo n (qOfT m τ V b) < qOfT m τ V b (n+1)
+      · have h2' : qOfT m τ V b (argmaxTo n (qOfT m τ V b)) < qOfT m τ V b (n+1) := by rw [← hmx]; exact h2
+        cases hi : cfg.inside <;>
+          simp only [rtStepC, hi, gtOpt, h1, decide_true, if_true, ← hq, h2, maxTo, argmaxTo, h2'] <;> simp
+      · have h2' : ¬ qOfT m τ V b (argmaxTo n (qOfT m τ V b)) < qOfT m τ V b (n+1) := by rw [← hmx]; exact h2
+        cases hi : cfg.inside <;>
+          simp only [rtStepC, hi, gtOpt, h1, decide_true, if_true, ← hq, h2, decide_false, maxTo, argmaxTo, h2'] <;> simp
+    · have hle : expReward m b (n+1) + rtUpperC cfg m maxR hprev ≤ maxTo n (qOfT m τ V b) := not_lt.mp h1
+      have h2 : ¬ maxTo n (qOfT m τ V b) < qOfT m τ V b (n+1) := by
+        rw [hq]; intro h; linarith
+      have h2' : ¬ qOfT m τ V b (argmaxTo n (qOfT m τ V b)) < qOfT m τ V b (n+1) := by rw [← hmx]; exact h2
+      cases hi : cfg.inside
+      · have h3 : ¬ maxTo n (qOfT m τ V b) < expReward m b (n+1) := by
+          intro h; have := hU0 hi; linarith
+        simp only [rtStepC, hi, gtOpt, h1, decide_false, maxTo, argmaxTo, h2, h2']
+        simp
+        intro h; exact absurd h h3
+      · simp only [rtStepC, hi, gtOpt, h1, decide_false, maxTo, argmaxTo, h2, h2']
+        simp
+
+/-- when does the pruning bound really bound the future term: always for the repaired code read at τ = 0, and for either code
+    when `0 ≤ maxR` (and γ ≤ 1) -/
+def RtOK (cfg : RtCfg) (m : Model) (τ maxR : Rat) : Prop :=
+  (0 ≤ maxR ∧ m.γ ≤ 1) ∨ (cfg.geo = true ∧ cfg.inside = true ∧ τ = 0)
+
+theorem rtOK_sign (cfg : RtCfg) (m : Model) (τ maxR : Rat) (h : RtOK cfg m τ maxR) : 0 ≤ maxR ∨ τ = 0 := by
+  rcases h with ⟨h, _⟩ | ⟨_, _, h⟩
+  · exact Or.inl h
+  · exact Or.inr h
+
+theorem rtUpperC_ge (cfg : RtCfg) (m : Model) (hγ0 : 0 ≤ m.γ) (τ maxR : Rat) (hok : RtOK cfg m τ maxR) (h : Nat) :
+    m.γ * rtB m maxR h ≤ rtUpperC cfg m maxR h ∧ (cfg.inside = false → 0 ≤ rtUpperC cfg m maxR h) := by
+  unfold rtUpperC
+  cases hg : cfg.geo
+  · -- linear bound: needs 0 ≤ maxR and γ ≤ 1
+    simp only [Bool.false_eq_true, if_false]
+    rcases hok with ⟨hM, hγ1⟩ | ⟨hgeo, _, _⟩
+    · refine ⟨?_, fun _ => rtUpper_nonneg m hγ0 maxR hM h⟩
+      have := mul_le_mul_of_nonneg_left (rtB_le_linear m hγ0 hγ1 maxR hM h) hγ0
+      unfold rtUpper; linarith
+    · rw [hg] at hgeo; exact absurd hgeo (by simp)
+  · simp only [if_true]
+    rw [rtGeoLoop_eq]
+    refine ⟨le_refl _, ?_⟩
+    intro hi
+    rcases hok with ⟨hM, _⟩ | ⟨_, hin, _⟩
+    · exact mul_nonneg hγ0 (rtB_nonneg m hγ0 maxR hM h)
+    · rw [hi] at hin; exact absurd hin (by simp)
+
+theorem rtSimC_eq_expectimaxT (cfg : RtCfg) (m : Model) (hv : Valid m) (τ : Rat) (hτ : 0 ≤ τ) (hγ0 : 0 ≤ m.γ)
+    (maxR : Rat) (hok : RtOK cfg m τ maxR) (hR : RBound m maxR) :
+    ∀ (h : Nat) (b : Vec), Simplex m.S b → rtSimC cfg m τ maxR h b = expectimaxT m τ h b := by
+  intro h
+  induction h with
+  | zero => intro b _; rfl
+  | succ h ih =>
+    intro b hb
+    obtain ⟨k, hk⟩ : ∃ k, m.A = k + 1 := ⟨m.A - 1, by have := hv.hA; omega⟩
+    have hsign := rtOK_sign cfg m τ maxR hok
+    have hB : 0 ≤ rtB m maxR h ∨ τ = 0 := by
+      rcases hsign with h0 | h0
+      · exact Or.inl (rtB_nonneg m hγ0 maxR h0 h)
+      · exact Or.inr h0
+    have hup := rtUpperC_ge cfg m hγ0 τ maxR hok h
+    have hfut : ∀ a, a ≤ k → rtFuture m τ (rtSimC cfg m τ maxR h) b a ≤ rtUpperC cfg m maxR h := by
+      intro a ha
+      have haA : a < m.A := by omega
+      rw [rtFuture_congr m hv τ hτ _ _ ih b hb.1 haA]
+      exact le_trans (rtFuture_le' m hv τ hτ hγ0 _ _ hB (expectimaxT_le_rtB m hv τ hτ hγ0 maxR hsign hR h) b hb haA) hup.1
+    have sp := rtLoopC_spec cfg m τ maxR (rtSimC cfg m τ maxR h) h b hup.2 k hfut
+    simp only [rtSimC, expectimaxT]
+    rw [hk, sp]
+    simp only [Option.getD_some]
+    have : k + 1 - 1 = k := by omega
+    rw [this]
+    apply maxTo_congr
+    intro a ha
+    rw [qOfT_eq, qOfT_eq, rtFuture_congr m hv τ hτ _ _ ih b hb.1 (by omega)]
+
+/-- **rtbss_general**: for either form of the source, under `RtOK` (which for the repaired code at τ = 0 is NO restriction on maxR),
+    `sampleAction` returns the expectimax value and the first action attaining it. -/
+theorem rtbss_general (cfg : RtCfg) (m : Model) (hv : Valid m) (τ : Rat) (hτ : 0 ≤ τ) (hγ0 : 0 ≤ m.γ)
+    (maxR : Rat) (hok : RtOK cfg m τ maxR) (hR : RBound m maxR) (h : Nat) (b : Vec) (hb : Simplex m.S b) :
+    (rtSampleC cfg m τ maxR (h+1) b).2 = expectimaxT m τ (h+1) b ∧
+    (rtSampleC cfg m τ maxR (h+1) b).1 < m.A ∧
+    qOfT m τ (expectimaxT m τ h) b (rtSampleC cfg m τ maxR (h+1) b).1 = expectimaxT m τ (h+1) b ∧
+    (∀ a, a < (rtSampleC cfg m τ maxR (h+1) b).1 → qOfT m τ (expectimaxT m τ h) b a < expectimaxT m τ (h+1) b) := by
+  obtain ⟨k, hk⟩ : ∃ k, m.A = k + 1 := ⟨m.A - 1, by have := hv.hA; omega⟩
+  have ih := rtSimC_eq_expectimaxT cfg m hv τ hτ hγ0 maxR hok hR h
+  have hsign := rtOK_sign cfg m τ maxR hok
+  have hB : 0 ≤ rtB m maxR h ∨ τ = 0 := by
+    rcases hsign with h0 | h0
+    · exact Or.inl (rtB_nonneg m hγ0 maxR h0 h)
+    · exact Or.inr h0
+  have hup := rtUpperC_ge cfg m hγ0 τ maxR hok h
+  have hfut : ∀ a, a ≤ k → rtFuture m τ (rtSimC cfg m τ maxR h) b a ≤ rtUpperC cfg m maxR h := by
+    intro a ha
+    have haA : a < m.A := by omega
+    rw [rtFuture_congr m hv τ hτ _ _ ih b hb.1 haA]
+    exact le_trans (rtFuture_le' m hv τ hτ hγ0 _ _ hB (expectimaxT_le_rtB m hv τ hτ hγ0 maxR hsign hR h) b hb haA) hup.1
+  have sp := rtLoopC_spec cfg m τ maxR (rtSimC cfg m τ maxR h) h b hup.2 k hfut
+  have hcongr : ∀ a, a ≤ k → qOfT m τ (rtSimC cfg m τ maxR h) b a = qOfT m τ (expectimaxT m τ h) b a := by
+    intro a ha
+    rw [qOfT_eq, qOfT_eq, rtFuture_congr m hv τ hτ _ _ ih b hb.1 (by omega)]
+  have hk1 : m.A - 1 = k := by omega
+  have e1 : (rtSampleC cfg m τ maxR (h+1) b) = (argmaxTo k (qOfT m τ (expectimaxT m τ h) b), maxTo k (qOfT m τ (expectimaxT m τ h) b)) := by
+    simp only [rtSampleC]
+    rw [hk, sp]
+    simp only [Option.getD_some]
+    rw [AITB.MDP.argmaxTo_congr hcongr, maxTo_congr hcongr]
+  rw [e1]
+  simp only [expectimaxT, hk1]
+  refine ⟨trivial, ?_, ?_, ?_⟩
+  · have := AITB.MDP.argmaxTo_le k (qOfT m τ (expectimaxT m τ h) b); omega
+  · exact (AITB.MDP.maxTo_eq_argmax k _).symm
+  · intro a ha
+    rw [AITB.MDP.maxTo_eq_argmax k]
+    exact AITB.MDP.argmaxTo_first k _ a ha
+
+/-- the configuration found in the source by the translator on this run -/
+def rtCfgNow : RtCfg := ⟨AITB.Gen.C02.rtbssGeometricBound, AITB.Gen.C02.rtbssCompareInsidePrune⟩
+
+/-- **rtbss_as_extracted** — the RTBSS clause for the code as it is NOW (flags regenerated from RTBSS.hpp on every run):
+    value = expectimax and the first optimal action, for every POMDP, horizon ≥ 1 and belief, provided `maxR` bounds the rewards and
+    * if both repairs are present in the source: nothing else (τ = 0 reading; any sign of maxR)  — the full statement;
+    * otherwise: `0 ≤ maxR` and `γ ≤ 1`                                                        — the `_partial` statement. -/
+theorem rtbss_as_extracted (m : Model) (hv : Valid m) (hγ0 : 0 ≤ m.γ) (maxR : Rat) (hR : RBound m maxR)
+    (hpartial : (AITB.Gen.C02.rtbssGeometricBound && AITB.Gen.C02.rtbssCompareInsidePrune) = false → 0 ≤ maxR ∧ m.γ ≤ 1)
+    (h : Nat) (b : Vec) (hb : Simplex m.S b) :
+    (rtSampleC rtCfgNow m 0 maxR (h+1) b).2 = expectimax m (h+1) b ∧
+    qOfT m 0 (expectimaxT m 0 h) b (rtSampleC rtCfgNow m 0 maxR (h+1) b).1 = expectimax m (h+1) b := by
+  have hok : RtOK rtCfgNow m 0 maxR := by
+    by_cases hc : (AITB.Gen.C02.rtbssGeometricBound && AITB.Gen.C02.rtbssCompareInsidePrune) = false
+    · exact Or.inl (hpartial hc)
+    · right
+      simp only [Bool.and_eq_false_iff, not_or, Bool.not_eq_false] at hc
+      exact ⟨hc.1, hc.2, rfl⟩
+  obtain ⟨h1, _, h3, _⟩ := rtbss_general rtCfgNow m hv 0 (le_refl _) hγ0 maxR hok hR h b hb
+  rw [expectimaxT_zero m hv (h+1) b hb.1] at h1 h3
+  exact ⟨h1, h3⟩
+
+/-- the statement order the model hard-codes is the one found in the source (test on generated literals) -/
+theorem sites_match_model :
+    AITB.Gen.C02.rtbssSites = ["h0", "iota", "negInf", "forA", "rew", "uBound", "prune", "forO", "update", "diffSmall", "recurse", "cmp", "setMax", "topOnly", "ret"] ∧
+    AITB.Gen.C02.projecterSites = ["impossible", "rewardOnly", "TxVO", "timesGammaPlusR", "overO", "possibleSmall"] := by decide
+
+/-- the repaired configuration handles the counterexample of the shipped one (test on literals) -/
+example : rtSampleC ⟨true, true⟩ cxNeg 0 (-1) 3 #[1] = (0, -7/4) := by decide +kernel
 
 /-! ## `crossSumBestAtBelief`: the support vector Witness and LinearSupport build for a belief
 
